@@ -2585,20 +2585,18 @@ def _negotiation_rule(run, ser: Func):
                  and isinstance(x.func.value, ast.Name) and x.func.value.id in prm]
         if not inner:
             continue
+        if len(prm) != 1 or len(inner) != 1 or len(inner[0].args) != 1 or inner[0].keywords or any(
+                isinstance(x, ast.Name) and x.id == prm[0] and isinstance(x.ctx, (ast.Store, ast.Del)) for x in ast.walk(g.node)):
+            raise UnknownIdiom('%s: %s negotiates more than once / is handed the request twice' % (ser.qual, g.qual))
+        # the helper IS the negotiation block: each `return <e>` is judged like `<negotiated type> = <e>` of the inlined
+        # block, on the helper's own paths (`return None`: nothing acceptable, the caller renders no body)
         gcfg = cfg_of(g, p)
         run.use_cfg(gcfg)
-        gix = Index(gcfg)
-        if len(inner) != 1 or len(inner[0].args) != 1 or inner[0].keywords or _all_paths_through(gcfg, _call_nodes(gix, inner)) is not None:
-            raise UnknownIdiom('%s: %s negotiates on some paths only / more than once' % (ser.qual, g.qual))
-        neg_al = _aliases(g, lambda e, inner=inner: e is inner[0])
-        for r in walk_self(g.node):
-            if isinstance(r, ast.Return) and not (r.value is inner[0] or (isinstance(r.value, ast.Name) and r.value.id in neg_al)):
-                raise UnknownIdiom('%s: %s returns %s, not the answer of the negotiation' % (ser.qual, g.qual, short(r)))
+        _negotiated_paths(run, g, gcfg, Index(gcfg), prm[0], inner, json_type, returns=True)
         negs.append(c)
         offer_of[id(c)] = (g, inner[0].args[0], {k: (v, ser, None) for k, v in bound.items()})
     if not negs:
         raise AnchorError('%s: no %s.client_prefers(...) negotiation call' % (ser.qual, reqn))
-    neg_nodes = _call_nodes(ix, negs)
     # (1) what is offered, in which order
     for c in negs:
         ofn, oexpr, oenv = offer_of[id(c)]
@@ -2614,8 +2612,17 @@ def _negotiation_rule(run, ser: Func):
         run.check(not bad, 'JSON is the first of the predefined media types the default error serializer offers', ser,
                   'predefined: ' + short(parts[typed[0]][1]), where=parts[typed[0]][2].loc(parts[typed[0]][1]),
                   runtime_witness='Accept: application/json, application/xml (equal weight): the error is rendered as %s' % (bad[0][0] if bad else ''))
+    _negotiated_paths(run, ser, cfg, ix, reqn, negs, json_type)
+
+
+def _negotiated_paths(run, f: Func, cfg, ix: Index, reqn: str, negs, json_type: str, returns: bool = False):
+    """Clauses (2)-(4) of the negotiation rule over one function: the serializer itself, or (returns=True) a helper
+    that holds the negotiation block and hands the selected type back - there `return <e>` is what `<type> = <e>` is in
+    the serializer, read on the helper's own CFG paths."""
+    p = run.project
+    neg_nodes = _call_nodes(ix, negs)
     # (2) no Accept-text test selects a type without the negotiation
-    tx = _AcceptText(p, ser, reqn)
+    tx = _AcceptText(p, f, reqn)
     accepted = {CATCH_ALL_RANGE, json_type}
     unreadable: List[ast.AST] = []
     other = tx.atom_other(accepted, unreadable)
@@ -2638,32 +2645,32 @@ def _negotiation_rule(run, ser: Func):
                 if not tx.mentions(leaf) or eval3(leaf, other) is not None:
                     continue
                 if tx.classify(leaf) is None:
-                    raise UnknownIdiom('%s: test of the Accept text %s' % (ser.qual, short(leaf)))
+                    raise UnknownIdiom('%s: test of the Accept text %s' % (f.qual, short(leaf)))
                 if any(leaf is u for u in unreadable):
-                    raise UnknownIdiom('%s: comparison of a transformed (case-folded / stripped) Accept text %s' % (ser.qual, short(leaf)))
+                    raise UnknownIdiom('%s: comparison of a transformed (case-folded / stripped) Accept text %s' % (f.qual, short(leaf)))
                 offending.append((n, leaf))
         if not offending:
             raise UnknownIdiom('%s: the negotiation call is skipped under a condition that is not a test of the Accept header: %s'
-                               % (ser.qual, '; '.join(flow.describe_path(cfg, bypass)[:6])))
+                               % (f.qual, '; '.join(flow.describe_path(cfg, bypass)[:6])))
     for n, leaf in offending:
         run.fail('the media type of a default error response is decided by req.client_prefers() for every Accept header: a prefix / '
-                 'substring / non-catch-all comparison of the Accept text must not select a type instead', ser, leaf,
-                 where='%s:%s' % (ser.file, n.lineno), witness=flow.describe_path(cfg, bypass),
+                 'substring / non-catch-all comparison of the Accept text must not select a type instead', f, leaf,
+                 where='%s:%s' % (f.file, n.lineno), witness=flow.describe_path(cfg, bypass),
                  runtime_witness="Accept: application/json;q=0.2, application/xml (or application/json;q=0): the q-values are never "
                                  "looked at and the error is rendered in the type the text test picked")
     if not offending:
         run.ok('every path of the default error serializer negotiates through req.client_prefers() unless the Accept text equals a '
-               'catch-all constant', ser.loc(negs[0]), negs[0])
+               'catch-all constant', f.loc(negs[0]), negs[0])
     # (3) the exact-equality shortcuts select what the negotiation would: the first predefined type
     pref: Set[str] = set()
-    for n in walk_self(ser.node):
+    for n in walk_self(f.node):
         if isinstance(n, ast.Assign) and any(n.value is c for c in negs):
             pref.update(t.id for t in n.targets if isinstance(t, ast.Name))
         elif isinstance(n, (ast.AnnAssign, ast.NamedExpr)) and any(n.value is c for c in negs) and isinstance(n.target, ast.Name):
             pref.add(n.target.id)
 
     for _ in range(4):
-        for n in walk_self(ser.node):
+        for n in walk_self(f.node):
             if isinstance(n, ast.Assign) and isinstance(n.value, ast.Name) and n.value.id in pref:
                 pref.update(t.id for t in n.targets if isinstance(t, ast.Name))
 
@@ -2675,33 +2682,36 @@ def _negotiation_rule(run, ser: Func):
             return a.value
         if isinstance(a, ast.AnnAssign) and isinstance(a.target, ast.Name) and a.target.id in pref and a.value is not None:
             return a.value
+        if returns and isinstance(a, ast.Return):
+            # the helper's answer: `return <e>` selects <e>, a bare `return` selects nothing (None)
+            return a.value if a.value is not None else ast.copy_location(ast.Constant(value=None), a)
         return None
 
     for c in sorted(accepted):
         filt = pruned(cfg, tx.atom_const(c), flow.no_exc)
         if flow.find_path(cfg, [cfg.entry], [cfg.exit], avoid_nodes=neg_nodes, edge_filter=filt) is None:
             continue
-        if not pref:
-            raise UnknownIdiom('%s: the result of the negotiation call is not bound to a local' % ser.qual)
+        if not pref and not returns:
+            raise UnknownIdiom('%s: the result of the negotiation call is not bound to a local' % f.qual)
         fwd = flow.reachable(cfg, [cfg.entry], avoid_nodes=neg_nodes, edge_filter=filt)
         sets = []
         for n in cfg.live_nodes():
             v = pref_assign(n) if n.id in fwd else None
             if v is None or flow.find_path(cfg, [n.id], [cfg.exit], avoid_nodes=neg_nodes, edge_filter=filt) is None:
                 continue
-            val = p.fold(ser.module, v, None, ser)
+            val = p.fold(f.module, v, None, f)
             if val is UNKNOWN:
-                raise UnknownIdiom('%s: shortcut for Accept == %r selects %s' % (ser.qual, c, short(v)))
+                raise UnknownIdiom('%s: shortcut for Accept == %r selects %s' % (f.qual, c, short(v)))
             sets.append(n.id)
             run.check(val == json_type, 'a shortcut taken when the Accept header is exactly %r selects what the negotiation would: the first '
-                                        'predefined type' % c, ser, n.ast, where='%s:%s' % (ser.file, n.lineno),
+                                        'predefined type' % c, f, n.ast, where='%s:%s' % (f.file, n.lineno),
                       runtime_witness='Accept: %s is answered with %r instead of %s' % (c, val, json_type))
         hole = flow.find_path(cfg, [cfg.entry], [cfg.exit], avoid_nodes=set(neg_nodes) | set(sets), edge_filter=filt)
         if hole is not None:
             raise UnknownIdiom('%s: when Accept == %r neither the negotiation nor an assignment of %s is on the path: %s'
-                               % (ser.qual, c, '/'.join(sorted(pref)), '; '.join(flow.describe_path(cfg, hole)[:6])))
+                               % (f.qual, c, '/'.join(sorted(pref) + ['a return'] * returns), '; '.join(flow.describe_path(cfg, hole)[:6])))
     # (4) after the negotiation its answer is replaced only when it found nothing
-    if pref:
+    if pref or returns:
         is_pref = lambda e: (isinstance(e, ast.Name) and e.id in pref) or (  # noqa: E731
             isinstance(e, ast.NamedExpr) and isinstance(e.target, ast.Name) and e.target.id in pref)
 
@@ -2713,7 +2723,7 @@ def _negotiation_rule(run, ser: Func):
             if pol is not None:
                 return not pol
             if isinstance(e, ast.Compare) and len(e.ops) == 1 and isinstance(e.ops[0], (ast.Eq, ast.NotEq)) and is_pref(e.left) \
-                    and p.fold(ser.module, e.comparators[0], None, ser) == '':
+                    and p.fold(f.module, e.comparators[0], None, f) == '':
                 return isinstance(e.ops[0], ast.NotEq)
             return None
 
@@ -2727,11 +2737,11 @@ def _negotiation_rule(run, ser: Func):
                 for leaf in _leaves(t):
                     if any(is_pref(x) for x in ast.walk(leaf)) and found(leaf) is None and not (
                             isinstance(leaf, ast.Compare) and len(leaf.ops) == 1 and isinstance(leaf.ops[0], (ast.Eq, ast.NotEq))
-                            and p.fold(ser.module, leaf.comparators[0], None, ser) is not UNKNOWN and is_pref(leaf.left)):
-                        raise UnknownIdiom('%s: test of the negotiated media type %s' % (ser.qual, short(leaf)))
+                            and p.fold(f.module, leaf.comparators[0], None, f) is not UNKNOWN and is_pref(leaf.left)):
+                        raise UnknownIdiom('%s: test of the negotiated media type %s' % (f.qual, short(leaf)))
             run.check(refuted(facts, found),
-                      'after the negotiation the selected media type is replaced only when the negotiation found none', ser, n.ast,
-                      where='%s:%s' % (ser.file, n.lineno),
+                      'after the negotiation the selected media type is replaced only when the negotiation found none', f, n.ast,
+                      where='%s:%s' % (f.file, n.lineno),
                       runtime_witness='an Accept header the negotiation answers with one type is served another one')
 
 
